@@ -475,12 +475,27 @@ fn stub_excused(name: &str, args: &[u64]) -> bool {
 }
 
 /// the domain exclusions the crate documents: clamp(lo > hi) is an assert (not generated at all here)
+/// cases that took longer than 2 s (normal cost: microseconds) are recorded here at once and their
+/// operation is skipped afterwards, so that neither the search nor proptest's shrinking (which would
+/// re-run a multi-second case hundreds of times) can stall the check
+static SLOW: Mutex<Vec<(usize, Viol)>> = Mutex::new(Vec::new());
+
 pub fn eval_checked(opi: usize, args: &[u64], l: &mut Local) -> Result<Option<u64>, Viol> {
     let op = &registry()[opi];
+    if SLOW.lock().unwrap().iter().any(|(i, _)| *i == opi) {
+        return Ok(None);
+    }
     l.eval();
     enter(opi as u32, args);
+    let t0 = std::time::Instant::now();
     let r = guard(|| (op.f)(args));
     leave();
+    let dt = t0.elapsed().as_secs_f64();
+    if dt > 2.0 {
+        let v = Viol { op: op.name.clone(), args: args.to_vec(), want: "a result within microseconds".into(), got: match &r { Ok(v) => format!("{:#x} after {:.1} s", v, dt), Err(m) => format!("{} after {:.1} s of spinning", m, dt) }, kind: if r.is_err() { "panic" } else { "hang" } };
+        SLOW.lock().unwrap().push((opi, v));
+        return Ok(None);
+    }
     match r {
         Ok(v) => Ok(Some(v)),
         Err(m) => {
@@ -505,6 +520,10 @@ pub fn run(rep: &mut Report) {
         "float results are compared as bits with NaN canonicalised".into(),
         "a loop that is merely slow (< watchdog limit) passes".into(),
     ];
+    if stub_table().0.is_empty() {
+        rep.inconclusive.push("c16_stubs.json (table of the crate's explicit todo!() operations) is missing or empty".into());
+        return;
+    }
     let mut worker = match spawn_worker() {
         Ok(w) => w,
         Err(e) => {
@@ -618,6 +637,11 @@ pub fn run(rep: &mut Report) {
         }
     }
     worker.kill();
+    for (_, v) in SLOW.lock().unwrap().drain(..) {
+        if let Err(v) = l.outcome(rep.cfg.prop, Err(v)) {
+            viols.push(v);
+        }
+    }
     l.sample(|| json!({"ops_registered": reg.len(), "cases_compared_between_builds": pend.len()}));
     let mut out = SectionOut { name: format!("optimised build vs overflow-checked build: identical bits on {} returned cases", pend.len()), exhaustive: false, evals: l.evals, nontrivial: 0, distinct: 0, labels: Default::default(), samples: l.samples, viols, known: l.known, wall_s: t.elapsed().as_secs_f64() };
     out.nontrivial = pend.len() as u64;
